@@ -83,6 +83,13 @@ class BasePolicy:
     def eval_unpack(self, value, i, n, state, flow):
         if isinstance(value, (ast.Tuple, ast.List)) and len(value.elts) == n:
             return self.eval(value.elts[i], state, flow)
+        if isinstance(value, (ast.GeneratorExp, ast.ListComp)) and len(value.generators) == 1:
+            # a, b = (f(v) for v in (x, y)): element-wise through the comprehension variable
+            g = value.generators[0]
+            if isinstance(g.iter, (ast.Tuple, ast.List)) and len(g.iter.elts) == n and isinstance(g.target, ast.Name) and not g.ifs:
+                sub = dict(state)
+                sub[g.target.id] = self.eval(g.iter.elts[i], state, flow)
+                return self.eval(value.elt, sub, flow)
         return EMPTY
 
     def eval_iter(self, iter_expr, state, flow):
